@@ -152,8 +152,9 @@ peg::parser! {
             // Escape opening bracket.
             ['['] { (String::from(r"\["), '[') } /
             // `&` and `~` are escaped: doubled (`&&`, `~~`) they are set operators
-            // of the regex crate.
-            [c if matches!(c, '&' | '~')] { (std::format!("\\{c}"), c) } /
+            // of the regex crate. `^` is escaped so that it can never end up first in
+            // the emitted class (e.g. after a dropped reversed range) and negate it.
+            [c if matches!(c, '&' | '~' | '^')] { (std::format!("\\{c}"), c) } /
             // Any other character except closing bracket gets added as-is.
             [c if c != ']'] { (c.to_string(), c) }
 
